@@ -337,6 +337,38 @@ def run_pyscript(fa, ea, fb, eb, sibform, place, legacy):
         w.close()
 
 
+EXTRA_FILES = {
+    "modules/m1.py": "LIMIT = 1000\ndef deco(fn):\n    def w(**kw):\n        return fn(**kw)\n    return w\n",
+    "a.py": ("from m1 import deco\nLIMIT = 5\nlog = []\n@state_trigger('int(pyscript.lv) > LIMIT')\n@deco\ndef trg(**kw):\n    log.append(('trg', LIMIT))\n"
+             "@state_trigger('int(pyscript.lv) > LIMIT')\ndef plain(**kw):\n    log.append(('plain', LIMIT))\n"),
+    "b.py": ("def switch():\n    pyscript.set_global_ctx('file.a')\nmarker_b = 'b'\nswitch()\nafter = 'after-switch'\ndef later():\n    global gv\n    gv = 1\n"
+             "    return LIMIT\nseen = later()\n"),
+}
+
+
+def run_extras(legacy):
+    """(1) a trigger function wrapped by a decorator that lives in another module still has its trigger expression evaluated against the
+    globals of the file that defines it; (2) after pyscript.set_global_ctx() was called inside a function, the rest of the file - top-level
+    assignments, definitions, global declarations, lookups - consistently lives in the new context."""
+    from mc.world import World
+
+    w = World(EXTRA_FILES, legacy=legacy)
+    try:
+        w.hass.states.async_set("pyscript.lv", "3")
+        w.settle()
+        w.hass.states.async_set("pyscript.lv", "7")
+        w.settle()
+        ga, gb = w.g("file.a"), w.g("file.b")
+        got = {"log": sorted(ga["log"]), "where": {k: (k in ga, k in gb) for k in ("after", "gv", "seen", "marker_b", "later")}, "seen": ga.get("seen")}
+        want = {"log": [("plain", 5), ("trg", 5)], "where": {"after": (True, False), "gv": (True, False), "seen": (True, False), "marker_b": (False, True),
+                                                              "later": (True, False)}, "seen": 5}
+        if w.errors:
+            got["loop_errors"] = [repr(e)[:200] for e in w.errors]
+        return (None if got == want else {"expected": want, "observed": got}), got
+    finally:
+        w.close()
+
+
 def programs(tier):
     forms = FORMS
     for fa, fb in itertools.product(forms, repeat=2):
@@ -357,12 +389,19 @@ def bounds(tier):
 
 def plan(tier, seed):
     n = 32
-    return [(tier, legacy, k, n) for legacy in (False, True) for k in range(n)]
+    return [(tier, legacy, k, n) for legacy in (False, True) for k in range(n)] + [("extras", legacy, 0, 1) for legacy in (False, True)]
 
 
 def run_shard(shard):
     tier, legacy, k, n = shard
     res = Shard()
+    if tier == "extras":
+        fail, got = run_extras(legacy)
+        case = {"extras": True, "legacy": legacy}
+        res.case(("extras", repr(got)), nontrivial=True, transitions=3, config=("legacy" if legacy else "new") + "/extras", sample=case)
+        if fail:
+            res.fail(f"{'legacy' if legacy else 'new'}|extras", case, expected=fail["expected"], observed=fail["observed"])
+        return res
     for i, prog in enumerate(programs(tier)):
         if i % n != k:
             continue
@@ -378,6 +417,9 @@ def run_shard(shard):
 
 
 def replay(case):
+    if case.get("extras"):
+        fail, got = run_extras(case["legacy"])
+        return {"ok": fail is None, "failure": fail}
     prog = tuple(case["prog"])
     ref = run_reference(*prog)
     got = run_pyscript(*prog, case["legacy"])
